@@ -8,7 +8,7 @@ for d in seeded/*/; do
   id=$(echo $n | cut -d- -f1)
   extra=""
   case $n in C03-r2-2) id=C10;; C08-r2-1) id=C07;; esac
-  r=$(./harness/seedtest_wt.sh $d/patch.diff $id 2>&1 | head -1 | cut -c1-60)
+  r=$(./harness/seedtest_wt.sh /verif/seeded/$n/patch.diff $id 2>&1 | head -1 | cut -c1-60)
   echo "$n: $r"
   case "$r" in CAUGHT*) ;; *) miss=$((miss+1));; esac
 done
